@@ -131,13 +131,17 @@ fn main() {
             let mut stats = Stats { scenarios: 0, messages: 0, cancelled: 0 };
             let dump = arg_val(&args, "--dump-scenarios");
             let mut dumpw = dump.map(|p| std::io::BufWriter::new(std::fs::File::create(p).unwrap()));
-            for sc in &scenarios {
+            for (k, sc) in scenarios.iter().enumerate() {
                 if let Some(w) = dumpw.as_mut() {
                     use std::io::Write;
                     writeln!(w, "{}", sc.to_json()).unwrap();
                     std::io::Write::flush(w).unwrap();
                 }
                 run(sc, &mut stats);
+                if k % 4 == 0 {
+                    // (inside the scenario's trace, between its `end` and the next `reset`)
+                    id_burst(8, 20_000);
+                }
             }
             let lines = util::log_close();
             util::write_json(&summary, &json!({"scenarios": stats.scenarios, "messages": stats.messages, "cancelled": stats.cancelled, "events": lines}));
